@@ -155,6 +155,17 @@ CLAIMED = {
               "clauses (Parseval), lengths, seeds and sqrt-scaling checked on the implementation."),
         design="6/C16", technique="Lean 4 proof at ℝ + Float-model correspondence + variance oracle",
         note=PROOF_NOTE + " The discrete Parseval identity (variance = sum of 2|a_k|^2) is checked numerically on every case, not yet proved in Lean; 'different seeds differ' is a statement about PCG64."),
+    "C12": dict(
+        text=("Lean 4 theorems: argmax returns a value that bounds every element and is attained, so the peak-method level of "
+              "any spectrum with E f^p <= c everywhere and = c somewhere (a c f^-p range) is exactly c; scaling the spectrum by "
+              "c > 0 selects the same frequency (same a1, b1, direction) and scales the level, hence u*, by c; "
+              "u* = 8 pi^3 E_eq / (4 g I beta) (ℝ, linear in E_eq); directions are returned in [0, 360) congruent to the "
+              "unwrapped angle; the meteorological convention is (270 - theta) mod 360 in [0, 360); U10 = u*/kappa ln(10/z0) "
+              "with z0 = alpha u*^2/g. Correspondence: Float model of both methods (peak; minimum-variance 20-bin window "
+              "transcribed with its index clipping), u*, direction, convention and U10 against estimate_u10_from_spectrum for "
+              "batches in four layouts and non-default parameters; analytic-tail, scaling and 2D = 1D oracles on the code."),
+        design="6/C12", technique="Lean 4 proof (argmax invariant, scaling invariance, modular range) + Float-model correspondence",
+        note=PROOF_NOTE + " The mean-method window selection is transcribed and compared, its 'zero-variance window' property is only exercised (analytic tails)."),
 }
 
 NOT_YET = "check not built yet in this session; see DESIGN.md section 9 (build order)"
